@@ -6,7 +6,7 @@ P=$1; K=$2; ROOT=${3:-/tmp/seed}; OFF=${4:-0}; N=$((K+OFF)); SRC=$ROOT/$P/out; W
 rm -rf $W; git -C /repo worktree add -q --detach $W HEAD || exit 2
 cp /repo/gemclus/tree/_utils.cpython-312-x86_64-linux-gnu.so $W/gemclus/tree/
 mkdir -p $OUT; cp $SRC/patch$K.diff $OUT/patch.diff; cp $SRC/demo$K.py $OUT/demo.py; cp $SRC/notes$K.md $OUT/notes.md 2>/dev/null
-cd $W
+cd $W; export OMP_NUM_THREADS=1 OPENBLAS_NUM_THREADS=1 MKL_NUM_THREADS=1
 PYTHONPATH=$W timeout 600 /venv/bin/python $OUT/demo.py > $OUT/demo_clean.log 2>&1; RC0=$?
 git apply $OUT/patch.diff 2> $OUT/apply.log; RA=$?
 PYTHONPATH=$W timeout 600 /venv/bin/python $OUT/demo.py > $OUT/demo_patched.log 2>&1; RC1=$?
